@@ -255,6 +255,13 @@ impl DocumentBuilder {
                 ));
             }
             self.name_id_builder.pop();
+        } else {
+            // an end tag without a start tag (possible in a fragment)
+            return Err(ParseError::InvalidCloseTag(
+                prefix.to_string(),
+                name.to_string(),
+                Span::from_prefix_name(prefix, name),
+            ));
         }
         let closed_node_id = self.current_node_id;
         self.current_node_id = current_node.parent().expect("Cannot close document node");
